@@ -14,3 +14,10 @@ WORLDS = {
     "squeeth(ne)": lambda: catalog.squeeth_world("ne"),
     "squeeth(eq,no-osqth-entry)": lambda: catalog.squeeth_world("eq", with_osqth=False),
 }
+
+# worlds with moving data over several bars / several markets in one account (bar-by-bar properties: C01, C02, C05)
+PATH_WORLDS = {
+    "aave(path)": lambda: catalog.aave_path_world(),
+    "uni+aave": lambda: catalog.uni_aave_world(),
+    "deribit+uni": lambda: catalog.deribit_uni_world(),
+}
